@@ -19,7 +19,8 @@ from sr.symreal import conj, lift, model_value, same_cell
 from . import matrix_common as mc
 from . import replays
 
-ENTRY_POINTS = ["model_matrix", "Formula.get_model_matrix", "ModelSpec.get_model_matrix", "ModelSpec.get_model_matrix+overrides", "materializer.get_model_matrix"]
+ENTRY_POINTS = ["model_matrix", "Formula.get_model_matrix", "ModelSpec.get_model_matrix", "ModelSpec.get_model_matrix+overrides", "materializer.get_model_matrix",
+                "materialized ModelSpec.get_model_matrix", "model_matrix(materialized spec)"]
 
 
 def build(entry, formula, data, ctx, drop=None, **opts):
@@ -29,6 +30,12 @@ def build(entry, formula, data, ctx, drop=None, **opts):
         call = {}
     if entry == "ModelSpec.get_model_matrix":
         return ModelSpec.from_spec(Formula(formula), **opts).get_model_matrix(data, context=ctx, **call)
+    if entry in ("materialized ModelSpec.get_model_matrix", "model_matrix(materialized spec)"):
+        # a spec that has been through a build already (structure and state recorded), applied to the same data
+        built = ModelSpec.from_spec(Formula(formula), **opts).get_model_matrix(data, context=ctx, **({"drop_rows": set(drop)} if drop is not None else {}))
+        if entry.startswith("materialized"):
+            return built.model_spec.get_model_matrix(data, context=ctx, **call)
+        return model_matrix(built.model_spec, data, context=ctx, **call)
     if entry == "ModelSpec.get_model_matrix+overrides":
         # every option handed to the call itself, on a spec recorded with the defaults (and the other output type)
         other = "numpy" if opts.get("output") == "pandas" else "pandas"
